@@ -147,7 +147,13 @@ def check(run, replay=None):
                     worst = max((abs(h1.loc[t, n] - h2.loc[t, n]) for t in common_t for n in h1.columns), default=0.0)
                     run.count("hydraulics_compared")
                     if worst > 1e-3:
-                        run.violation("split_changed_hydraulics", "heads of the original nodes changed by %.3g m after splitting a pipe without minor loss" % worst, input=desc)
+                        targeted = any(getattr(getattr(a, "_target_obj", None), "name", None) == pipe_name for _, c in wn.controls() for a in c.actions())
+                        if targeted and int(wn.get_link(pipe_name).initial_status) == 0:
+                            # recorded finding: the new half copies the initial status CLOSED but none of the controls that open the pipe
+                            run.violation("split_closed_pipe_opened_by_control", "splitting pipe %s (initially CLOSED, opened by a control or rule) changes heads by %.3g m: "
+                                          "the new half stays closed" % (pipe_name, worst), input=desc)
+                        else:
+                            run.violation("split_changed_hydraulics", "heads of the original nodes changed by %.3g m after splitting a pipe without minor loss" % worst, input=desc)
         # ---------------- skeletonize ----------------------------------------------------------------
         for trial in range(2):
             wn1 = copy.deepcopy(wn)
@@ -227,6 +233,21 @@ def check(run, replay=None):
         elif cid in res:
             m = meta[cid]
             run.violation("morph_" + m["check"].replace(" ", "_"), "split/break/skeletonize: %s differs from the model" % m["check"], input=m)
+    # known finding: an initially closed pipe that a control opens: the new half copies CLOSED but not the control
+    from wntr.network import controls as C
+    wn = wntr.network.WaterNetworkModel()
+    wn.add_reservoir("R", base_head=50.0, coordinates=(0, 0))
+    wn.add_junction("J", base_demand=0.01, elevation=0.0, coordinates=(10, 0))
+    wn.add_pipe("P", "R", "J", length=100.0, diameter=0.2, roughness=100, initial_status="CLOSED")
+    wn.add_pipe("Q", "R", "J", length=5000.0, diameter=0.1, roughness=100)
+    wn.add_control("open", C.Control(C.SimTimeCondition(wn, "=", 3600), C.ControlAction(wn.get_link("P"), "status", wntr.network.LinkStatus.Open)))
+    wn.options.time.duration = 7200
+    h1 = wntr.sim.WNTRSimulator(copy.deepcopy(wn)).run_sim().node["head"].loc[7200, "J"]
+    wn2 = wntr.morph.split_pipe(wn, "P", "P2", "JM", split_at_point=0.5)
+    h2 = wntr.sim.WNTRSimulator(wn2).run_sim().node["head"].loc[7200, "J"]
+    if abs(h1 - h2) > 1e-3:
+        run.violation("split_closed_pipe_opened_by_control", "splitting an initially CLOSED pipe that a control opens at 1 h changes the head at 2 h from %.3f to %.3f m: "
+                      "the new half stays closed" % (h1, h2), input={"initial_status": "CLOSED", "control": "LINK P OPEN AT TIME 1", "head_before": float(h1), "head_after": float(h2)})
     # known finding: a split pipe with minor loss changes the hydraulics (theorem C19_split_hydraulics_minor_refuted)
     wn = wntr.network.WaterNetworkModel()
     wn.add_reservoir("R", base_head=50.0, coordinates=(0, 0))
